@@ -56,21 +56,21 @@ From Coq Require Import List String Bool ZArith Permutation.
 From Thunder Require Import Lib.Json Federation.Merge Federation.Normalize Federation.Planner Federation.Executor
   Federation.NormalizeProofs Federation.PlannerProofs Federation.ExecutorProofs Federation.FedWitness
   Federation.FedBase Federation.FedSem Federation.FedPlanSem Federation.Premises Federation.NormSem
-  Federation.Transparency Federation.Check06.
+  Federation.Transparency Federation.PlannerTotal Federation.Check06.
 Import ListNotations.
 Open Scope string_scope.
 
-(** MAIN: the gateway and the reference semantics both answer, with the same JSON map. *)
+(** MAIN: the gateway and the reference semantics both answer, with the same JSON map.  That the planner
+    succeeds is no longer a premise: it is [planner_total] below. *)
 Theorem federation_transparent :
-  forall w g pick q flat p,
-    (forall l s, pick l = Some s -> In s l) ->
-    fed_ok g = true -> fed_ok2 g = true ->
+  forall w g pick q flat,
+    (forall l s, pick l = Some s -> In s l) -> (forall l, l <> [] -> exists s, pick l = Some s) ->
+    fed_ok g = true -> fed_ok2 g = true -> sel_ok g = true ->
     world_ok w g -> (forall ty id f ak, scalars_ok (w_value w ty id f ak)) ->
     (forall ty id f ak owners, find_gfield g ty f = Some (RScalar, owners) -> sval (w_value w ty id f ak)) ->
     forallb qwf q = true ->
     flatten (2 * depth_list q + 4) false g (RObj "Query") (Some q) = Some (Some flat) ->
     flat_ok g "Query" flat = true ->
-    plan_root g pick (2 * depth_list q + 4) flat = Some p ->
     exists a r, fed_exec w g pick false true q = Some a /\
                 eval_ref w g true (2 * depth_list q + 4) "Query" 0%Z q = Some r /\ jeq a r.
 Proof. exact Transparency.fed_transparent. Qed.
@@ -83,27 +83,49 @@ Theorem federation_transparent_on_case :
     premises g calls first_owner q = true ->
     exists a r, fed_exec (world_of calls orgs) g first_owner false true q = Some a /\
                 eval_ref (world_of calls orgs) g true (2 * depth_list q + 4) "Query" 0%Z q = Some r /\ jeq a r.
-Proof.
-  intros g calls orgs q H. apply Transparency.fed_transparent_on_case; [|exact H].
-  intros [|x t] s Hs; simpl in Hs; inversion Hs; left; reflexivity.
-Qed.
+Proof. exact (fun g calls orgs q => Transparency.fed_transparent_on_case g calls orgs first_owner q first_owner_sound first_owner_total). Qed.
 Print Assumptions federation_transparent_on_case.
 
 (** ... and the answer does not depend on which of several services that serve a field is chosen. *)
 Theorem choice_independent :
-  forall w g pick1 pick2 q flat p1 p2,
+  forall w g pick1 pick2 q flat,
     (forall l s, pick1 l = Some s -> In s l) -> (forall l s, pick2 l = Some s -> In s l) ->
-    fed_ok g = true -> fed_ok2 g = true ->
+    (forall l, l <> [] -> exists s, pick1 l = Some s) -> (forall l, l <> [] -> exists s, pick2 l = Some s) ->
+    fed_ok g = true -> fed_ok2 g = true -> sel_ok g = true ->
     world_ok w g -> (forall ty id f ak, scalars_ok (w_value w ty id f ak)) ->
     (forall ty id f ak owners, find_gfield g ty f = Some (RScalar, owners) -> sval (w_value w ty id f ak)) ->
     forallb qwf q = true ->
     flatten (2 * depth_list q + 4) false g (RObj "Query") (Some q) = Some (Some flat) ->
     flat_ok g "Query" flat = true ->
-    plan_root g pick1 (2 * depth_list q + 4) flat = Some p1 ->
-    plan_root g pick2 (2 * depth_list q + 4) flat = Some p2 ->
     exists a1 a2, fed_exec w g pick1 false true q = Some a1 /\ fed_exec w g pick2 false true q = Some a2 /\ jeq a1 a2.
 Proof. exact Transparency.fed_choice_independent. Qed.
 Print Assumptions choice_independent.
+
+(** PLANNER TOTALITY: on a well-formed normalised selection set, over a federation in which every field has an
+    owner and every ServiceSelector entry names an owner ([sel_ok], decidable -- the two ways selectService can
+    fail), for every resolution [pick] of the free choice that answers on non-empty owner lists, planRoot
+    (planObject / planUnion / selectService, at every depth, including the re-planning of the selections sent
+    to another service) never fails, given fuel [pdl flat + 2] ([pdl]: two units per field level, one per
+    union-member fragment); ... *)
+Theorem planner_total :
+  forall g pick,
+    (forall l s, pick l = Some s -> In s l) -> (forall l, l <> [] -> exists s, pick l = Some s) ->
+    sel_ok g = true -> forall fuel flat, flat_ok g "Query" flat = true -> pdl flat + 2 <= fuel ->
+    exists p, plan_root g pick fuel flat = Some p.
+Proof. exact PlannerTotal.plan_root_total. Qed.
+Print Assumptions planner_total.
+
+(** ... and the fuel [fed_exec] hands the planner (twice the normaliser's, plus two) is enough for the normal
+    form of every query, whatever the flattener variant: fuel is a device of the model, never the reason for a
+    failure of the modelled gateway. *)
+Theorem planner_total_on_normal_forms :
+  forall g pick prune dedupe fuel q flat,
+    (forall l s, pick l = Some s -> In s l) -> (forall l, l <> [] -> exists s, pick l = Some s) ->
+    sel_ok g = true ->
+    flatten_gen prune fuel dedupe g (RObj "Query") (Some q) = Some (Some flat) -> flat_ok g "Query" flat = true ->
+    exists p, plan_root g pick (2 * fuel + 2) flat = Some p.
+Proof. exact PlannerTotal.plan_root_total_flatten. Qed.
+Print Assumptions planner_total_on_normal_forms.
 
 (** Kinds of sub-queries: whatever the request (query or mutation), every step of the plan that is not directly
     below the root -- every hop -- is sent to its service as a query (the harness checks the kind every
@@ -238,10 +260,21 @@ Example federation_transparent_nonvacuous :
   option_map norm (eval_ref (world_of calls2 []) wg2 true (2 * depth_list q2 + 4) "Query" 0%Z q2) = Some ans2 /\
   match flatten (2 * depth_list q2 + 4) false wg2 (RObj "Query") (Some q2) with
   | Some (Some flat) =>
-      match plan_root wg2 pick1 (2 * depth_list q2 + 4) flat with
+      match plan_root wg2 pick1 (2 * (2 * depth_list q2 + 4) + 2) flat with
       | Some (Plan _ _ _ _ [Plan _ "s1" _ _ subs]) => List.length subs = 2
       | _ => False
       end
   | _ => False
   end.
 Proof. exact witness2. Qed.
+
+(** Non-vacuity of [planner_total]: the witness federation has an owner for every field and a valid selector;
+    the normal form of the witness query is well-formed, needs 7 units of planner fuel, gets 22, and its plan
+    hops (see above). *)
+Example planner_total_nonvacuous :
+  sel_ok wg2 = true /\
+  match flatten (2 * depth_list q2 + 4) false wg2 (RObj "Query") (Some q2) with
+  | Some (Some flat) => flat_ok wg2 "Query" flat = true /\ pdl flat + 2 = 7 /\ 2 * (2 * depth_list q2 + 4) + 2 = 22
+  | _ => False
+  end.
+Proof. vm_compute. repeat split; reflexivity. Qed.
